@@ -434,13 +434,13 @@ func ruleC11(c *Ctx) {
 	c.check(missOK, "SHAPE", "unknown letter -> error", av.Pos(), "the miss branch of the lookup returns a non-nil error", "no error return on the miss branch of the code-table lookup")
 	if prodCall != nil {
 		arg := tb.T(prodCall.Call.Args[0])
-		apps := arg.findAll(func(x *Term) bool { return x.isCall("builtin:append") })
+		apps := topAppendSites(arg)
 		if len(apps) == 1 {
-			el := apps[0].Args[1]
 			want := "extract[0](lookup[,ok](" + tb.T(lk.X).String() + ", extract[2](next(range(call[strings.ToUpper](param[0]))))))"
-			hitOK = el.contains(func(x *Term) bool { return x.Op == "partial" && x.Args[0].String() == want })
-			pc := pathCond(tb, av.Blocks[0], apps[0].V.(ssa.Instruction).Block()).String()
-			if !strings.Contains(pc, "extract[1](lookup[,ok]") || strings.Contains(pc, "!(extract[1](lookup") {
+			hitOK = apps[0].Elem.String() == want
+			pc := pathCond(tb, av.Blocks[0], apps[0].At.Block())
+			okAtom := "extract[1](lookup[,ok](" + tb.T(lk.X).String() + ", extract[2](next(range(call[strings.ToUpper](param[0]))))))"
+			if !pc.implies(okAtom, false) {
 				hitOK = false
 			}
 		}
@@ -455,13 +455,9 @@ func ruleC11(c *Ctx) {
 		good := false
 		if succ != nil {
 			rt := tb.T(succ.Results[0])
-			apps := rt.findAll(func(x *Term) bool {
-				return x.isCall("builtin:append") && x.V != nil && tname(x.V.Type()) == "[]string"
-			})
+			apps := topAppendSites(rt)
 			if len(apps) == 1 {
-				good = apps[0].Args[1].contains(func(x *Term) bool {
-					return x.Op == "partial" && x.Args[0].String() == "conv[string](each("+tb.T(prodCall).String()+"))"
-				})
+				good = apps[0].Elem.String() == "conv[string](each("+tb.T(prodCall).String()+"))"
 			}
 		}
 		c.check(good, "SHAPE", "result=each product row as string", av.Pos(), "every row of the product is returned as a string, in order", "the returned list is not exactly string(row) for each row of the product (unrecognised shape)")
